@@ -21,6 +21,9 @@ use vharness::*;
 mod messages;
 use messages::{BackendMessage, FieldDescription, TransactionStatus};
 
+#[path = "../wiresrv.rs"]
+mod wiresrv;
+
 fn hx(b: &[u8]) -> String {
     if b.is_empty() {
         "-".into()
@@ -441,7 +444,9 @@ fn gen_msg(r: &mut Rng, thorough: bool) -> BackendMessage {
         }
         8 | 9 => {
             let n = gen_count(r, thorough);
-            BackendMessage::DataRow { values: (0..n).map(|_| if r.chance(1, 5) { None } else { Some(gen_bytes(r, thorough)) }).collect() }
+            // 64 KB values only in short rows (a 3000-value row of them would be a 100 MB request line)
+            let big = thorough && n <= 12;
+            BackendMessage::DataRow { values: (0..n).map(|_| if r.chance(1, 5) { None } else { Some(gen_bytes(r, big)) }).collect() }
         }
         10 => {
             let tag = if r.chance(1, 2) {
@@ -579,6 +584,180 @@ impl Ctx {
     }
 }
 
+// ---------------------------------------------------------------------------------------------
+// wire level: the frames as a client receives them from the real server (connection.rs send path)
+// ---------------------------------------------------------------------------------------------
+
+/// reads the reply to one simple query: every frame up to and including ReadyForQuery, with the
+/// independent parser; `slow` = small receive buffer, small reads with pauses
+fn read_reply(s: &mut std::net::TcpStream, slow: bool, bytes_seen: &mut u64) -> Result<Vec<(P, Vec<u8>)>, String> {
+    use std::io::Read;
+    let mut buf: Vec<u8> = vec![];
+    let mut frames: Vec<(P, Vec<u8>)> = vec![];
+    let mut chunk = vec![0u8; if slow { 8192 } else { 1 << 20 }];
+    let _ = s.set_read_timeout(Some(std::time::Duration::from_secs(180)));
+    loop {
+        // consume complete frames
+        loop {
+            if buf.len() < 5 {
+                break;
+            }
+            let len = i32::from_be_bytes([buf[1], buf[2], buf[3], buf[4]]);
+            if len < 4 {
+                return Err(format!("frame {:?} with length field {}", buf[0] as char, len));
+            }
+            if buf.len() - 1 < len as usize {
+                break;
+            }
+            let raw: Vec<u8> = buf[..1 + len as usize].to_vec();
+            match parse_frame(&raw) {
+                Some((p, rest)) if rest.is_empty() => {
+                    let done = matches!(p, P::Ready(_));
+                    frames.push((p, raw));
+                    buf.drain(..1 + len as usize);
+                    if done {
+                        if !buf.is_empty() {
+                            return Err(format!("{} bytes after ReadyForQuery", buf.len()));
+                        }
+                        return Ok(frames);
+                    }
+                }
+                _ => return Err(format!("frame {:?} of declared length {} does not parse: the body is not what its length field and grammar say (first bytes {})", raw[0] as char, len, hx(&raw[..raw.len().min(24)]))),
+            }
+        }
+        match s.read(&mut chunk) {
+            Ok(0) => return Err(format!("connection closed inside a reply: {} frames complete, {} bytes of an incomplete frame{}", frames.len(), buf.len(), pending(&buf))),
+            Ok(n) => {
+                *bytes_seen += n as u64;
+                buf.extend_from_slice(&chunk[..n]);
+                // once the reply has started the server has everything in hand; still generous,
+                // the machine may be heavily loaded (a slow run is not a violation)
+                let _ = s.set_read_timeout(Some(std::time::Duration::from_secs(60)));
+                if slow {
+                    std::thread::sleep(std::time::Duration::from_micros(300));
+                }
+            }
+            Err(e) => return Err(format!("no more bytes ({}) inside a reply: {} frames complete, {} bytes of an incomplete frame{}", e.kind(), frames.len(), buf.len(), pending(&buf))),
+        }
+    }
+}
+
+fn pending(buf: &[u8]) -> String {
+    if buf.len() >= 5 {
+        format!(" — frame {:?} whose length field promises {} bytes after the type byte, {} delivered", buf[0] as char, i32::from_be_bytes([buf[1], buf[2], buf[3], buf[4]]), buf.len() - 1)
+    } else {
+        String::new()
+    }
+}
+
+fn wire_family(cx: &mut Ctx, args: &Args) {
+    use std::io::Write;
+    let t0 = std::time::Instant::now();
+    let built = wiresrv::build_server(&args.scratch);
+    cx.rep.extra.insert("server_build_s".into(), serde_json::json!(t0.elapsed().as_secs_f64()));
+    let bin = match built {
+        Ok(b) => b,
+        Err(e) => {
+            cx.rep.fail(FailKind::Oracle, None, "the server binary of the tree under test does not build (wire-level frames impossible)", &e);
+            return;
+        }
+    };
+    let srv = match wiresrv::start_server(&bin, &args.scratch.join("srv-trust"), "trust", None) {
+        Ok(s) => s,
+        Err(e) => {
+            cx.rep.fail(FailKind::Oracle, None, "the server does not start with a generated configuration", &e);
+            return;
+        }
+    };
+    // value = 'z' × (a·b·c), built server-side: REPLACE(REPLACE('x'×a, 'x', 'y'×b), 'y', 'z'×c)
+    let sizes: Vec<(usize, usize, usize, bool)> = vec![
+        (1, 1, 1, false),
+        (64, 32, 32, false),     // 64 KB
+        (64, 32, 32, true),
+        (64, 128, 128, false),   // 1 MB
+        (64, 128, 128, true),
+        (128, 256, 256, false),  // 8 MB
+        (128, 256, 256, true),
+        (256, 256, 256, false),  // 16 MB
+    ];
+    let mut wire_bytes = 0u64;
+    for (a, b, c, slow) in sizes {
+        let n = a * b * c;
+        let sql = format!("SELECT REPLACE(REPLACE('{}', 'x', '{}'), 'y', '{}')", "x".repeat(a), "y".repeat(b), "z".repeat(c));
+        let id = format!("wire query value_bytes={} reader={}", n, if slow { "slow" } else { "eager" });
+        cx.rep.case(&id, true);
+        cx.rep.count(&format!("wire_query_{}", if slow { "slow_reader" } else { "eager_reader" }));
+        let replay = |w: &str| format!("server: target/debug/vibesql-server with auth.method = \"trust\"; startup user=postgres; then simple query\n{}\nreader: {}\n{}", if sql.len() > 300 { format!("SELECT REPLACE(REPLACE('x'*{}, 'x', 'y'*{}), 'y', 'z'*{})", a, b, c) } else { sql.clone() }, if slow { "SO_RCVBUF 16 KiB, 8 KiB reads with 0.3 ms pauses" } else { "eager 1 MiB reads" }, w);
+        let mut s = match std::net::TcpStream::connect(("127.0.0.1", srv.port)) {
+            Ok(s) => s,
+            Err(e) => {
+                cx.rep.fail(FailKind::Oracle, None, "wire level: cannot connect to the server", &replay(&e.to_string()));
+                continue;
+            }
+        };
+        if slow {
+            wiresrv::set_rcvbuf(&s, 16 * 1024);
+        }
+        let _ = s.set_nodelay(true);
+        // ---- handshake: AuthenticationOk, ParameterStatus*, BackendKeyData, ReadyForQuery ----
+        if s.write_all(&wiresrv::startup_packet(&[("user", "postgres"), ("database", "postgres")])).is_err() {
+            cx.rep.fail(FailKind::Oracle, None, "wire level: cannot send the startup packet", &replay(""));
+            continue;
+        }
+        let hs = read_reply(&mut s, false, &mut wire_bytes);
+        let hs_ok = matches!(&hs, Ok(f) if matches!(f.first(), Some((P::AuthOk, _))) && f.iter().any(|(p, _)| matches!(p, P::KeyData(..))) && f.iter().filter(|(p, _)| matches!(p, P::ParamStatus(..))).count() >= 1);
+        if !hs_ok {
+            cx.rep.fail(FailKind::Oracle, None, "wire level: the startup reply is not AuthenticationOk, ParameterStatus…, BackendKeyData, ReadyForQuery as well-formed frames", &replay(&format!("{:?}", hs.map(|f| f.into_iter().map(|(p, _)| p).collect::<Vec<_>>())).chars().take(600).collect::<String>()));
+            continue;
+        }
+        // ---- the query ----
+        let mut q = vec![b'Q'];
+        q.extend_from_slice(&((4 + sql.len() + 1) as u32).to_be_bytes());
+        q.extend_from_slice(sql.as_bytes());
+        q.push(0);
+        if s.write_all(&q).is_err() {
+            cx.rep.fail(FailKind::Oracle, None, "wire level: cannot send the query", &replay(""));
+            continue;
+        }
+        let before = wire_bytes;
+        match read_reply(&mut s, slow, &mut wire_bytes) {
+            Err(e) => cx.rep.fail(FailKind::Oracle, None, "wire level: the bytes received for a query result are not a sequence of well-formed frames ending in ReadyForQuery", &replay(&e)),
+            Ok(frames) => {
+                cx.rep.add("wire_reply_bytes", wire_bytes - before);
+                let kinds: Vec<&P> = frames.iter().map(|(p, _)| p).collect();
+                let shape_ok = kinds.len() == 4
+                    && matches!(kinds[0], P::RowDesc(f) if f.len() == 1)
+                    && matches!(kinds[1], P::DataRow(v) if v.len() == 1 && matches!(&v[0], Some(x) if x.len() == n && x.iter().all(|c| *c == b'z')))
+                    && matches!(kinds[2], P::Complete(t) if t == b"SELECT 1")
+                    && matches!(kinds[3], P::Ready(b'I'));
+                if !shape_ok {
+                    let brief: Vec<String> = frames.iter().map(|(p, raw)| format!("{} ({} bytes)", format!("{:?}", p).chars().take(60).collect::<String>(), raw.len())).collect();
+                    cx.rep.fail(FailKind::Oracle, None, "wire level: the reply is not RowDescription, DataRow with the value asked for, CommandComplete \"SELECT 1\", ReadyForQuery", &replay(&brief.join("\n")));
+                }
+                // correspondence (values up to 64 KB): every frame on the wire = model encoding of what it parses to
+                if n <= 65536 {
+                    for (p, raw) in &frames {
+                        let sx = match p {
+                            P::RowDesc(f) => format!("(rowdesc{})", f.iter().map(|x| format!(" ({} {} {} {} {} {} {})", hx(&x.0), x.1, x.2, x.3, x.4, x.5, x.6)).collect::<String>()),
+                            P::DataRow(v) => format!("(datarow{})", v.iter().map(|x| match x { None => " null".to_string(), Some(b) => format!(" {}", hx(b)) }).collect::<String>()),
+                            P::Complete(t) => format!("(complete {})", hx(t)),
+                            P::Ready(c) => format!("(ready {})", *c as char),
+                            _ => continue,
+                        };
+                        let me = cx.model.ask(&format!("encode {}", sx));
+                        cx.rep.traces_validated += 1;
+                        if me != hx(raw) {
+                            cx.rep.fail(FailKind::ModelDiff, None, "wire level: a frame on the wire is not the model's encoding of the message it parses to", &replay(&format!("message {}\nwire : {}\nmodel: {}", short(&sx), short(&hx(raw)), short(&me))));
+                        }
+                    }
+                }
+            }
+        }
+        let _ = s.write_all(&[b'X', 0, 0, 0, 4]);
+    }
+    cx.rep.extra.insert("wire_bytes_received".into(), serde_json::json!(wire_bytes));
+}
+
 fn main() {
     engine::silence_panics();
     let args = Args::parse("C28");
@@ -662,7 +841,7 @@ fn main() {
     }
 
     // ---- generated messages ----
-    let n = args.n(12000, 150000);
+    let n = args.n(12000, 40000);
     for i in 0..n {
         let mut r = rng.fork();
         let m = gen_msg(&mut r, thorough);
@@ -710,6 +889,9 @@ fn main() {
             cx.rep.fail(FailKind::Oracle, None, "messages encoded one after the other into one buffer do not parse back frame by frame", &format!("messages: {}\nbuffer: {}", short(&ms.iter().map(msg_sx).collect::<Vec<_>>().join(" ")), short(&hx(&bytes))));
         }
     }
+
+    // ---- the frames as received by a client of the real server ----
+    wire_family(&mut cx, &args);
 
     std::process::exit(cx.rep.finish());
 }
